@@ -38,7 +38,7 @@ func init() {
 		Title:     "A spec string compiles iff it is well-formed; errors point inside the string",
 		Technique: "bounded-exhaustive and random differential monitor: real lexer+parser (through Run and the VerifTokenize hook) vs a reference recogniser; token-extent monitor on the hooked token stream",
 		Rule: "exhaustive: every string over 19 character classes (blank, tab, [ ] ( ) | . - = < >, declared/undeclared lower case, declared/undeclared upper case, digit, _, other) up to length 4 (quick) / 6 (thorough), " +
-			"every sequence of up to 4 / 6 tokens out of 15 (incl. OPTIONS, folded, annotation, undeclared names), plus random longer strings from fragments and raw bytes; declarations: -a/--aa flag, -o/--out valued, X. " +
+			"every sequence of up to 4 / 6 tokens out of 15 (incl. OPTIONS, folded, annotation, undeclared names), plus random longer strings from fragments and raw bytes (against every declared/undeclared naming), plus sequences of 3-4 specs given in turn to ONE application object (optionally with a version flag requested on each Run); declarations: -a/--aa flag, -o/--out valued, X. " +
 			"Oracle per string: compiles iff the reference recogniser accepts; on rejection Run panics with an error whose position lies inside the string and inside the extent of the first offending lexeme or at the first token where the LL(1) reading fails; " +
 			"no Before/Action/After event precedes the panic (also when the bad spec belongs to a subcommand reached by routing, sampled); whenever the lexer succeeds its tokens are ordered, non-overlapping, each text equals the slice of the spec it claims, " +
 			"every non-blank byte lies in exactly one token, and kinds/extents equal the reference lexer's. non-trivial = string of >=2 bytes; distinct by string. exhaustive=true refers to the two enumerated families.",
@@ -104,6 +104,56 @@ func runC08(c *core.Ctx) {
 	default:
 		for i := 0; i < c08RandomPerCase; i++ {
 			c08One(c, c08Random(c.R), "random")
+		}
+		for i := 0; i < 10; i++ {
+			c08Sequence(c)
+		}
+	}
+}
+
+// c08Sequence: one application object is given 3-4 specs in turn (its Spec field is replaced between Runs), sometimes with
+// a declared version flag requested on every Run: every Run must compile or reject the spec it was given, whatever the
+// object compiled before and whatever the command line asks for
+func c08Sequence(c *core.Ctx) {
+	n := 3 + c.R.Intn(2)
+	var specs []string
+	for i := 0; i < n; i++ {
+		s := c08Random(c.R)
+		if c.R.Intn(2) == 0 || s == "" {
+			s = []string{"X", "[-a] X", "[OPTIONS] [X]", "-a | -o", "[X...]", "-a -- X"}[c.R.Intn(6)]
+		}
+		if c.R.Intn(4) == 0 && i > 0 {
+			s = specs[c.R.Intn(len(specs))] // the same spec again
+		}
+		specs = append(specs, s)
+	}
+	version := c.R.Intn(3) == 0
+	c.Journal(map[string]interface{}{"spec_sequence_on_one_app_object": specs, "version_flag_requested": version})
+	outs := drive.CompileSequence(specs, 7, version)
+	c.Eval()
+	c.Inc("family_sequence")
+	for i, s := range specs {
+		v := RefSpec(s, c08Opts, c08Args)
+		if v.Unclaimed {
+			continue
+		}
+		o := outs[i]
+		if o.Pan != nil {
+			c.Violation(fmt.Sprintf("step %d (%q): panic that is not a positioned spec error: %v", i, s, o.Pan), nil, nil)
+			return
+		}
+		if v.Ok != o.OK {
+			c.Violation(fmt.Sprintf("step %d of a sequence on one application object: spec %q well-formed=%v, compiled=%v (version flag requested: %v)", i, s, v.Ok, o.OK, version), nil, nil)
+			return
+		}
+		if !o.OK && (len(o.Events) > 0 || o.SpecErr.Input != s || o.SpecErr.Pos < v.ErrLo || o.SpecErr.Pos > v.ErrHi) {
+			c.Violation(fmt.Sprintf("step %d: spec %q rejected with position %d (expected within [%d,%d]), input %q, events %v", i, s, o.SpecErr.Pos, v.ErrLo, v.ErrHi, o.SpecErr.Input, o.Events), nil, nil)
+			return
+		}
+		if o.OK {
+			c.Inc("sequence_steps_compiled")
+		} else {
+			c.Inc("sequence_steps_rejected")
 		}
 	}
 }
